@@ -124,17 +124,27 @@ func (c *ctx) expr(e ast.Expr) (string, kind, error) {
 	return "", 0, fmt.Errorf("%s: unsupported expression %s", c.p.Pos(e), c.src(e))
 }
 
-// findIf returns the condition of the first if statement (in source order) of fn whose body
-// (first statement, printed) equals body.
+// findIf returns the condition of THE if statement of fn whose body's first statement (printed)
+// equals body; nil unless there is exactly one such statement, it has no else branch and it is
+// not itself an else branch (anything else means the source was restructured).
 func findIf(c *ctx, fn *ast.FuncDecl, body string) ast.Expr {
-	var found ast.Expr
+	var found []*ast.IfStmt
+	elses := map[ast.Stmt]bool{}
 	ast.Inspect(fn, func(n ast.Node) bool {
-		if is, ok := n.(*ast.IfStmt); ok && found == nil && len(is.Body.List) > 0 && c.src(is.Body.List[0]) == body {
-			found = is.Cond
+		if is, ok := n.(*ast.IfStmt); ok {
+			if is.Else != nil {
+				elses[is.Else] = true
+			}
+			if len(is.Body.List) > 0 && c.src(is.Body.List[0]) == body {
+				found = append(found, is)
+			}
 		}
-		return found == nil
+		return true
 	})
-	return found
+	if len(found) != 1 || found[0].Else != nil || elses[found[0]] {
+		return nil
+	}
+	return found[0].Cond
 }
 
 type item struct{ name, typ, def, why string }
